@@ -87,20 +87,20 @@ func mapExit(err error, exitCodeFlag bool) (int, string) {
 }
 
 type gExec struct {
-	outcome  vs.Outcome
-	err      error
-	setupErr error
-	evs      []pEv
-	events   []vs.Event
-	chunks   []vs.Chunk
-	steps    int
-	simSec   float64
-	hash     uint64
-	strategy string
-	log      []string
-	blocked  []string
-	reach    map[string]int
-	hazards  int
+	outcome     vs.Outcome
+	err         error
+	setupErr    error
+	evs         []pEv
+	events      []vs.Event
+	chunks      []vs.Chunk
+	steps       int
+	simSec      float64
+	hash        uint64
+	strategy    string
+	log         []string
+	blocked     []string
+	reach       map[string]int
+	hazards     int
 	cancelFired bool
 }
 
@@ -203,7 +203,7 @@ func execG(t *testing.T, ch *vs.Choices, p *gProg, dir string, keepLog bool, par
 					if r.HasV {
 						v.Set("V", ast.Var{Value: r.V})
 					}
-					calls = append(calls, &task.Call{Task: p.refName(-1, r.Target), Vars: v})
+					calls = append(calls, &task.Call{Task: p.refNameA(-1, r.Target, r.Alias), Vars: v})
 				}
 				x.err = e.Run(ctx, calls...)
 			})
